@@ -182,6 +182,8 @@ func buildRef(m *Model) *rgraph {
 						}
 						add(&redge{to: to, kind: ekTTU, tupleset: label, conds: []string{c}})
 					}
+				case KUnset:
+					g.invalid = append(g.invalid, fmt.Sprintf("%s: an operand is an unset userset", rn.id))
 				default:
 					opid := rn.id + "@" + path
 					op := g.node(opid, rkOp, e.Kind)
